@@ -111,6 +111,8 @@ class Executor(ExprMixin, CallMixin, LoopMixin):
         try:
             return self._exec(node, st)
         except NeedSplit as ns:
+            if getattr(self, "_inline_depth", 0) > 0:
+                raise           # inside an inlined helper: the ENCLOSING statement of the verified function is the one that forks
             outs = []
             for val in (True, False):
                 c = ns.cond if val else z3.Not(ns.cond)
@@ -287,6 +289,8 @@ class Executor(ExprMixin, CallMixin, LoopMixin):
 
     def s_If(self, node, st):
         c = self.truth(self.ev(node.test, st), st)
+        if not isinstance(c, bool) and getattr(self, "_inline_depth", 0) > 0:
+            c = self.decide(c, st)      # an inlined helper yields ONE outcome per decision vector (the calling statement is re-executed)
         if isinstance(c, bool):
             if c and self.error_branch(node.body):
                 st.trace.append(f"error-branch@{node.lineno}")
